@@ -152,11 +152,12 @@ def replay(cfg, events):
                     l = Literal(v)
                 back = l.toPython()
                 l3 = Literal(str(l), datatype=l.datatype) if l.datatype is not None else l
-                ok = same_value(v, back) if ty not in ("bool", "int") else (type(back) is type(v) and back == v)
+                back2 = l3.toPython()        # the value the lexical form denotes, parsed afresh
+                ok = (same_value(v, back) and same_value(v, back2)) if ty not in ("bool", "int") else (type(back) is type(v) and back == v and type(back2) is type(v) and back2 == v)
                 if ty in ("bytes_hex", "bytes_b64"):
                     ok = isinstance(back, bytes) and back == v
                 if ty == "str":
-                    ok = type(back) is str and back == v
+                    ok = type(back) is str and back == v and str(l) == v
                 e.update(dt=dts(l.datatype), lex=chars(str(l)), text=str(l), back=bool(ok), ill=bool(l3.ill_typed), canon=chars(canon_py(v, dts(l.datatype))),
                          fields=fields_py(v), args=repr(e["args"])[:80])
             elif op == "eq":
